@@ -139,8 +139,77 @@ func run(c *vf.Ctx) {
 		}
 		faults(c, k)
 		longStates(c, k)
+		snapshots(c, k)
 	}
 	keyedMarshal(c)
+}
+
+// ------------------------------------------------------------------ R
+// snapshots: the blob returned by MarshalBinary belongs to the caller. On ONE object, after
+// every prefix of a write sequence a snapshot is taken and KEPT (not copied); none of them
+// may change when the object is written to, summed or marshaled again, and restoring each of
+// them later and writing the rest must give the digest of the whole message.
+func snapshots(c *vf.Ctx, k *kind) {
+	chunkSets := [][]int{{1, k.B - 1, 1, k.B, 3}, {k.B, k.B, 1}, {0, 5, 2*k.B + 7, 0, 9}, {k.B - 1, 2, k.B - 3}}
+	for ci, chunks := range chunkSets {
+		total := 0
+		for _, n := range chunks {
+			total += n
+		}
+		msg := c.Bytes("c07-snap-"+k.label, ci, total)
+		h := k.fresh()
+		m, ok := h.(encoding.BinaryMarshaler)
+		if !ok {
+			return
+		}
+		type snap struct {
+			raw, copy []byte
+			at        int
+		}
+		var snaps []snap
+		pos := 0
+		take := func() bool {
+			var b []byte
+			var err error
+			if p, v, _ := vf.Protect(func() { b, err = m.MarshalBinary() }); p || err != nil {
+				c.Violation(k.name+": MarshalBinary fails or panics on an unkeyed hash", fmt.Sprint(v, err))
+				return false
+			}
+			snaps = append(snaps, snap{b, append([]byte(nil), b...), pos})
+			return true
+		}
+		if !take() {
+			return
+		}
+		for _, n := range chunks {
+			h.Write(append([]byte(nil), msg[pos:pos+n]...))
+			pos += n
+			h.Sum(nil)
+			if !take() {
+				return
+			}
+		}
+		c.Eval(len(snaps))
+		want := k.digest(msg)
+		for i, sn := range snaps {
+			what := map[string]any{"kind": k.label, "chunks": chunks, "snapshot": i, "taken_after_bytes": sn.at}
+			if !bytes.Equal(sn.raw, sn.copy) {
+				c.Violation(k.name+": a snapshot returned by MarshalBinary changes when the hash is used or marshaled again (the result is not the caller's own)", what)
+				break
+			}
+			f := k.fresh()
+			if err := f.(encoding.BinaryUnmarshaler).UnmarshalBinary(sn.raw); err != nil {
+				c.Violation(k.name+": UnmarshalBinary rejects a snapshot kept by the caller", what)
+				break
+			}
+			f.Write(msg[sn.at:])
+			if got := f.Sum(nil); !bytes.Equal(got[:len(want)], want) {
+				c.Violation(k.name+": restoring a kept snapshot and writing the rest gives a wrong digest", what)
+				break
+			}
+			c.Nontrivial(fmt.Sprintf("snap|%s|%d|%d", k.label, ci, i))
+		}
+	}
 }
 
 // ------------------------------------------------------------------ T
